@@ -157,15 +157,16 @@ theorem C18_mc_default_state_is_per_sample (c : Content) (sample : Row) (toScan 
   exact h
 
 /-- `mc.response_coefficients` leaves every sample's copy as it found it (the copy after the sample was
-    written in); what it does to the CALLER's model is `update_variables(variables)`, never undone (F-C18-2) -/
+    written in), and — after the repair of F-C18-2, the override being applied to a copy — the CALLER's model
+    exactly as it was -/
 theorem C18_mc_response_caller (w : Worker) (c c0 : Content) (sample : Row) (toScan : Option (List Name))
     (vars : Option Row) (normalized : Bool) (d : Rat) (tbl : List (Name × Column))
-    (h : mcRespSample w c sample toScan vars normalized d = .ok (c0, tbl)) : applyY0 c vars = .ok c0 := by
+    (h : mcRespSample w c sample toScan vars normalized d = .ok (c0, tbl)) : c0 = c := by
   unfold mcRespSample at h
-  obtain ⟨c0', h0, h⟩ := bind_ok h
+  obtain ⟨c0', _, h⟩ := bind_ok h
   obtain ⟨c1, _, h⟩ := bind_ok h
   obtain ⟨r, _, h⟩ := bind_ok h
   simp only [pure, Except.pure, Except.ok.injEq, Prod.mk.injEq] at h
-  rw [← h.1]; exact h0
+  exact h.1.symm
 
 end Mxl.C18
